@@ -15,3 +15,18 @@ Proof.
   revert l m; induction n; intros l m H; [lia|].
   destruct l as [|y l]; [destruct m; reflexivity|]. destruct m; simpl; [reflexivity|]. apply IHn. lia.
 Qed.
+
+Lemma NoDup_app_intro {A} (l1 l2 : list A) :
+  NoDup l1 -> NoDup l2 -> (forall x, In x l1 -> In x l2 -> False) -> NoDup (l1 ++ l2).
+Proof.
+  induction l1 as [|a l1 IH]; simpl; intros H1 H2 H; [exact H2|].
+  inversion H1; subst. constructor.
+  - intros Hin. apply in_app_or in Hin as [Hin|Hin]; [contradiction|]. eapply H; [left; reflexivity|exact Hin].
+  - apply IH; [assumption|assumption|]. intros x Hx1 Hx2. eapply H; [right; exact Hx1|exact Hx2].
+Qed.
+
+Lemma NoDup_app_singleton {A} (l : list A) a : NoDup l -> ~ In a l -> NoDup (l ++ [a]).
+Proof.
+  intros H Hn. apply NoDup_app_intro; [exact H|constructor; [intros []|constructor]|].
+  intros x Hx [<-|[]]. contradiction.
+Qed.
